@@ -288,7 +288,13 @@ pub fn script(kind_arg: &str, seed: u64, count: usize) -> Vec<J> {
         g.finite = matches!(kind, "render" | "repr" | "pairs_repr" | "text" | "serde" | "serde_repr");
         g.nice_floats = n % 4 != 0;
         let depth = if n % 7 == 0 { 4 } else { 3 };
-        let d = g.doc(depth, 4);
+        let mut d = g.doc(depth, 4);
+        // now and then a wide document: hundreds of tiny elements, many of them empty containers
+        if matches!(kind, "codec" | "decode" | "acc" | "render") && n % 151 == 150 {
+            let w = g.r.gen_range(530..700);
+            let items: Vec<Value> = (0..w).map(|i| match (i + n) % 12 { 0 => Value::Null, 1 => Value::Number(Number::UInt64(i as u64)), 2 => Value::Bool(i % 2 == 0), k if k % 2 == 0 => Value::Array(vec![]), _ => Value::Object(BTreeMap::new()) }).collect();
+            d = if g.r.gen() { Value::Array(items) } else { Value::Object(items.into_iter().enumerate().map(|(i, v)| (format!("k{i:03}"), v)).collect()) };
+        }
         let t = value_to_tree(&d);
         let mut line = match kind {
             "rand" => json!({"op":"rand_value","a":{}}),
@@ -296,6 +302,14 @@ pub fn script(kind_arg: &str, seed: u64, count: usize) -> Vec<J> {
                 if n % 2 == 0 { json!({"op":"roundtrip","d":[t],"a":{}}) } else { json!({"op":"to_vec","d":[t],"a":{"pre":pre_of(&mut g)}}) }
             }
             "render" => json!({"op":"render","d":[t],"a":{}}),
+            "serde_repr" if n % 9 == 4 => {
+                // text whose number overflows the double range (an error for serde), followed by ordinary calls
+                let sp = g.r.gen_range(0..3);
+                let mut b = render_text(&d, sp, &g.fl_json());
+                let extra: &[u8] = *g.pick(&[b"1e999".as_slice(), b"-1e400", b"[1,1e999]", b"{\"big\":[1,1e999]}", b"1e308", b"[0e999]"]);
+                if g.r.gen() { b = extra.to_vec(); } else { b = [b"[".as_slice(), &b, b",", extra, b"]"].concat(); }
+                json!({"op":"serde_raw","raw":[bytes_to_j(&b)],"a":{}})
+            }
             "serde" | "serde_repr" => json!({"op":"serde","d":[t],"a":{}}),
             "acc" | "repr" if n % 3 != 2 => {
                 let a = match n % 12 {
@@ -331,7 +345,8 @@ pub fn script(kind_arg: &str, seed: u64, count: usize) -> Vec<J> {
                         json!({"op":"build_array","d": parts.iter().map(value_to_tree).collect::<Vec<_>>(),"a":{"pre":pre}})
                     }
                     _ => {
-                        let parts: Vec<Value> = (0..g.r.gen_range(0..4)).map(|_| g.doc(1, 2)).collect();
+                        let np = if g.r.gen_range(0..6) == 0 { g.r.gen_range(21..45) } else { g.r.gen_range(0..4) };
+                        let parts: Vec<Value> = (0..np).map(|_| if np > 4 { g.scalar() } else { g.doc(1, 2) }).collect();
                         let keys: Vec<J> = parts.iter().map(|_| bytes_to_j(g.key().as_bytes())).collect();
                         json!({"op":"build_object","d": parts.iter().map(value_to_tree).collect::<Vec<_>>(),"a":{"keys":keys, "pre":pre}})
                     }
